@@ -749,7 +749,7 @@ for _n in ['__add__', '__radd__', '__sub__', '__rsub__', '__mul__', '__rmul__', 
            '__floordiv__', '__rfloordiv__', '__mod__', '__rmod__',
            '__lt__', '__le__', '__gt__', '__ge__', '__eq__', '__ne__']:
     setattr(SN, _n, _defer(getattr(SN, _n)))
-SN.__hash__ = lambda self: id(self)
+SN.__hash__ = lambda self: self.e.hash()      # structural: equal terms are equal dictionary keys
 
 
 def atoms(v):
